@@ -224,6 +224,66 @@ func eval(c *ctx, text string) {
 	}
 }
 
+// evalLiteral judges a text that contains carriage returns which are NOT part of a line end (pasted terminal output
+// that redraws a line) by the literal clauses of the statement only - what such a CR "is" is not for the oracle to say:
+// every LF of the stored body follows a CR and the body ends in CRLF; no stretch between two CRLFs exceeds 998 bytes;
+// input and stored body are the same text once every CR and LF is removed; the Body header is the stored length.
+func evalLiteral(c *ctx, text string) {
+	o := c.o
+	o.Evals++
+	var wire []byte
+	var setErr error
+	if vrt.Guard(o, func() {
+		m := &fbb.Message{Header: fbb.Header{}}
+		m.Header.Set("Mid", "C18BODYTEST")
+		if setErr = m.SetBody(text); setErr == nil {
+			var err error
+			if wire, err = m.Bytes(); err != nil {
+				panic("Bytes() failed after SetBody: " + err.Error())
+			}
+		}
+	}) {
+		return
+	}
+	if setErr != nil {
+		c.violate("error", text, "SetBody returned %v for representable text", setErr)
+		return
+	}
+	ref, err := msgref.Parse(wire)
+	if err != nil {
+		c.violate("unparseable", text, "the serialised message is not well-formed (%v) after SetBody", err)
+		return
+	}
+	stored := ref.Body
+	o.Count("texts_with_stray_carriage_returns", 1)
+	o.Count("stored_bytes_examined", int64(len(stored)))
+	if a, b := stripCRLF(toLatin1(text)), stripCRLF(stored); !bytes.Equal(a, b) {
+		d := firstDiff(a, b)
+		c.violate("content:differs", text, "stray-CR text: input and stored body differ once CR and LF are removed, first at character %d (%s)", d, window(b, d))
+	}
+	for i, by := range stored {
+		if by == '\n' && (i == 0 || stored[i-1] != '\r') {
+			c.violate("bare-lf", text, "stray-CR text: the stored body has a LF that does not follow a CR at byte %d", i)
+			break
+		}
+	}
+	if len(stored) > 0 && !bytes.HasSuffix(stored, []byte("\r\n")) {
+		c.violate("line-structure", text, "stray-CR text: the stored body does not end in CRLF")
+	}
+	for i, l := range bytes.Split(stored, []byte("\r\n")) {
+		if len(l)+2 > 1000 {
+			c.violate("line-too-long", text, "stray-CR text: stored line %d is %d bytes long including CRLF", i, len(l)+2)
+			break
+		}
+	}
+	if bh, _ := ref.Get("Body"); bh != fmt.Sprint(len(stored)) {
+		c.violate("body-header", text, "stray-CR text: Body header %q, stored body has %d bytes", bh, len(stored))
+	}
+	h := fnv.New64a()
+	h.Write([]byte(text))
+	o.Sig("cr %016x", h.Sum64())
+}
+
 func (c *ctx) unkeep(m *fbb.Message) {
 	out := c.kept[:0]
 	for _, k := range c.kept {
@@ -686,6 +746,18 @@ func run(cs vrt.Case) vrt.Obs {
 			eval(c, t)
 			if i%10 == 7 && len(t) < 20000 {
 				evalCharset(c, charsetNames[r.Intn(len(charsetNames))], t)
+			}
+			if i%6 == 1 {
+				// the same text with carriage returns sprinkled into its lines (never in front of a LF)
+				rs := []rune(t)
+				for k := 0; k < 1+len(rs)/40; k++ {
+					if at := r.Intn(len(rs) + 1); at == len(rs) || (rs[at] != '\n' && rs[at] != '\r') {
+						rs = append(rs[:at], append([]rune{'\r'}, rs[at:]...)...)
+					}
+				}
+				if len(rs) < 400000 {
+					evalLiteral(c, string(rs))
+				}
 			}
 		}
 		o.Sample = map[string]any{"kind": "random", "texts": p.N, "first": describe(first)}
